@@ -56,7 +56,7 @@ either transfers at most k bytes (k = 0..=requested: short transfers), or return
 it behaves normally. Exhaustive: every schedule of up to 4 actions over the alphabet {limit 0..=W, Interrupted, hard error} for word sizes up \
 to u32 on 2-word sequences (write side and read side); random schedules for all word sizes; seekable sources (Cursor, BufReader<Cursor>) with \
 read_word / write_word / word_pos / set_word_pos sequences; an absolute set_word_pos(k) after a read error was reported must still \
-address word k; a byte sink whose flush reports Interrupted a few times before it succeeds, with the caller retrying (the flush that returns Ok \
+address word k; word positions up to the top of the 64-bit byte-offset range over a synthetic seekable source; a byte sink whose flush reports Interrupted a few times before it succeeds, with the caller retrying (the flush that returns Ok \
 must have reached the sink, every byte must be there exactly once, later writes follow directly); bit-level reads and skips with one fault at \
 every backend call index (a skip that returns Ok must have passed over exactly that many bits); a bit writer dropped without an explicit flush while the sink is still faulty (the drop must deliver the last word or panic, never return \
 normally with bytes missing); byte slices written with io::Write::write_all through a bit writer over the adapter; bit-level streams written and read through BufBitWriter/BufBitReader over the adapter, both \
@@ -964,6 +964,16 @@ fn run(ctx: &Ctx, env: &Env) -> Stats {
             part.finish()
         }));
     }
+    jobs.push(Box::new(move |ctx: &Ctx| {
+        let mut part = Part::new(ctx, "far_words", "set_word_pos / word_pos / read_word at byte offsets up to the top of the u64 range over a synthetic seekable source", true);
+        for w in Wd::WRITER {
+            let by = w.bytes() as u64;
+            for k in [3u64, (1 << 32) + 1, (1 << 57) + 5, (1u64 << 61) / by + 7, (1u64 << 62) / by + 1, (1u64 << 63) / by + 9, u64::MAX / by - 3] {
+                part.check(&FarWords { w, k }, &|c: &FarWords| check_far_words(c));
+            }
+        }
+        part.finish()
+    }));
     run_jobs(ctx, jobs)
 }
 
@@ -1013,7 +1023,77 @@ pub fn gen_case(s: &mut Src) -> Case {
     }
 }
 
+/// Word positions at the far end of the 64-bit byte-offset range, over a synthetic seekable byte source whose
+/// byte at offset o is a fixed function of o.
+#[derive(Clone, Copy, PartialEq, Eq, Hash, Debug, Serialize, Deserialize)]
+pub struct FarWords {
+    pub w: Wd,
+    pub k: u64,
+}
+
+fn fn_byte(o: u64) -> u8 {
+    let mut z = (o / 8).wrapping_add(0x9E37_79B9_7F4A_7C15).wrapping_mul(0xBF58_476D_1CE4_E5B9);
+    z ^= z >> 31;
+    (z.wrapping_mul(0x94D0_49BB_1331_11EB) >> (8 * (o % 8))) as u8
+}
+
+struct FnBytes {
+    pos: u64,
+}
+impl Read for FnBytes {
+    fn read(&mut self, buf: &mut [u8]) -> std::io::Result<usize> {
+        for b in buf.iter_mut() {
+            *b = fn_byte(self.pos);
+            self.pos = self.pos.wrapping_add(1);
+        }
+        Ok(buf.len())
+    }
+}
+impl Seek for FnBytes {
+    fn seek(&mut self, p: std::io::SeekFrom) -> std::io::Result<u64> {
+        self.pos = match p {
+            std::io::SeekFrom::Start(x) => x,
+            std::io::SeekFrom::Current(d) => self.pos.wrapping_add(d as u64),
+            std::io::SeekFrom::End(d) => u64::MAX.wrapping_add(d as u64),
+        };
+        Ok(self.pos)
+    }
+}
+
+fn far_words<W: Wordy + dsi_bitstream::traits::Word + PartialEq + std::fmt::Debug>(c: &FarWords) -> CheckResult {
+    let mut o = Outcome::new();
+    let by = <W as Wordy>::BYTES as u64;
+    let mut ad = WordAdapter::<W, _>::new(FnBytes { pos: 0 });
+    if ad.set_word_pos(c.k).is_err() {
+        fail!("far_words/set_word_pos", "{:?}: set_word_pos failed", c);
+    }
+    match ad.word_pos() {
+        Ok(p) if p == c.k => {}
+        other => fail!("far_words/word_pos", "{:?}: word_pos() after set_word_pos({}) = {:?}", c, c.k, other.map_err(|e| e.to_string())),
+    }
+    let bytes: Vec<u8> = (0..by).map(|j| fn_byte(c.k * by + j)).collect();
+    let exp: W = crate::adapters::words_of::<W>(&bytes)[0];
+    match ad.read_word() {
+        Ok(w) if w == exp => {}
+        other => fail!("far_words/read_word", "{:?}: read_word at word {} returned {:?}, the source holds {:?}", c, c.k, other.map_err(|e| e.to_string()), exp),
+    }
+    match ad.word_pos() {
+        Ok(p) if p == c.k + 1 => {}
+        other => fail!("far_words/word_pos_after_read", "{:?}: word_pos() after the read = {:?}", c, other.map_err(|e| e.to_string())),
+    }
+    o.nt("byte_offset_beyond_2^57");
+    Ok(o)
+}
+
+pub fn check_far_words(c: &FarWords) -> CheckResult {
+    for_w!(c.w, W => far_words::<W>(c))
+}
+
 fn replay(v: &serde_json::Value, env: &Env) -> CheckResult {
+    if v.get("k").is_some() && v.get("w").is_some() && v.as_object().map(|m| m.len()) == Some(2) {
+        let c: FarWords = serde_json::from_value(v.clone()).map_err(|e| Failure::new("replay/parse", e.to_string()))?;
+        return run_guarded(&c, &|c: &FarWords| check_far_words(c));
+    }
     let c: Case = serde_json::from_value(v.clone()).map_err(|e| Failure::new("replay/parse", e.to_string()))?;
     run_guarded(&c, &|c: &Case| check_case(c, env))
 }
